@@ -1,0 +1,222 @@
+// Copyright 2016 The Cockroach Authors.
+//
+// Licensed under the Apache License, Version 2.0 (the "License");
+// you may not use this file except in compliance with the License.
+// You may obtain a copy of the License at
+//
+//     http://www.apache.org/licenses/LICENSE-2.0
+//
+// Unless required by applicable law or agreed to in writing, software
+// distributed under the License is distributed on an "AS IS" BASIS,
+// WITHOUT WARRANTIES OR CONDITIONS OF ANY KIND, either express or
+// implied. See the License for the specific language governing
+// permissions and limitations under the License.
+
+//go:build verif
+// +build verif
+
+package apd
+
+// Observation hooks for external runtime monitors. They never change what
+// the package computes; they only expose internal state read-only and count
+// loop iterations.
+
+import (
+	"fmt"
+	"hash/fnv"
+	"math/big"
+	"sort"
+	"sync/atomic"
+)
+
+// VerifLoopBudgetExceeded is the panic value raised by verifLoopTick when an
+// armed iteration budget is exhausted.
+type VerifLoopBudgetExceeded struct {
+	Site  string
+	Ticks int64
+}
+
+func (e VerifLoopBudgetExceeded) Error() string {
+	return fmt.Sprintf("verif: loop budget exceeded at %s after %d ticks", e.Site, e.Ticks)
+}
+
+// VerifLoopState is a per-goroutine-owner tick counter. A monitor arms one
+// with VerifArmLoopBudget, runs a call, and reads Ticks afterwards. The
+// counter is process global (atomic), so monitors that use a budget run one
+// call at a time per process.
+var (
+	verifTicks  int64
+	verifBudget int64 // 0 = not armed
+	verifSites  [verifMaxSites]int64
+)
+
+const verifMaxSites = 16
+
+var verifSiteNames = [verifMaxSites]string{
+	"sqrt.refine", "cbrt.scale_up", "cbrt.scale_down", "cbrt.shift_neg", "cbrt.shift_pos",
+	"loop.done", "ln.series", "exp.horner", "integerPower", "int64.scale", "reduce.big",
+}
+
+func verifSiteIndex(site string) int {
+	for i, n := range verifSiteNames {
+		if n == site {
+			return i
+		}
+	}
+	return verifMaxSites - 1
+}
+
+// VerifArmLoopBudget resets the tick counter and arms a budget of n loop
+// iterations (n <= 0 disarms).
+func VerifArmLoopBudget(n int64) {
+	atomic.StoreInt64(&verifTicks, 0)
+	atomic.StoreInt64(&verifBudget, n)
+}
+
+// VerifLoopTicks returns the number of ticks since the last arm.
+func VerifLoopTicks() int64 { return atomic.LoadInt64(&verifTicks) }
+
+// VerifSiteTicks returns the cumulative ticks per loop site since process
+// start.
+func VerifSiteTicks() map[string]int64 {
+	m := make(map[string]int64)
+	for i, n := range verifSiteNames {
+		if n == "" {
+			n = "other"
+		}
+		if v := atomic.LoadInt64(&verifSites[i]); v != 0 {
+			m[n] += v
+		}
+	}
+	return m
+}
+
+func verifLoopTick(site string) {
+	atomic.AddInt64(&verifSites[verifSiteIndex(site)], 1)
+	t := atomic.AddInt64(&verifTicks, 1)
+	if b := atomic.LoadInt64(&verifBudget); b > 0 && t > b {
+		panic(VerifLoopBudgetExceeded{Site: site, Ticks: t})
+	}
+}
+
+// VerifBigIntRepr describes the in-memory representation of a BigInt.
+type VerifBigIntRepr struct {
+	// Kind is "inline" (non-negative, value in the inline array), "inline-neg"
+	// (inline array plus the negative sentinel) or "heap".
+	Kind   string
+	Inline [inlineWords]big.Word
+	// Heap fields are only set for Kind == "heap".
+	HeapNeg  bool
+	HeapBits []big.Word
+	// HeapPtr identifies the heap big.Int so monitors can detect sharing.
+	HeapPtr uintptr
+}
+
+// VerifRepr returns a copy of z's representation. It does not modify z.
+func (z *BigInt) VerifRepr() VerifBigIntRepr {
+	var r VerifBigIntRepr
+	r.Inline = z._inline
+	switch {
+	case z._inner == nil:
+		r.Kind = "inline"
+	case z._inner == negSentinel:
+		r.Kind = "inline-neg"
+	default:
+		r.Kind = "heap"
+		r.HeapNeg = z._inner.Sign() < 0
+		r.HeapBits = append([]big.Word(nil), z._inner.Bits()...)
+		r.HeapPtr = verifPtr(z._inner)
+	}
+	return r
+}
+
+// String is a canonical rendering of the representation.
+func (r VerifBigIntRepr) String() string {
+	if r.Kind == "heap" {
+		return fmt.Sprintf("heap(neg=%v,bits=%x,inline=%x)", r.HeapNeg, r.HeapBits, r.Inline)
+	}
+	return fmt.Sprintf("%s(%x)", r.Kind, r.Inline)
+}
+
+func verifFpBig(h *verifHasher, name string, b *BigInt) {
+	r := b.VerifRepr()
+	r.HeapPtr = 0
+	h.add(name + "=" + r.String())
+}
+
+func verifFpDec(h *verifHasher, name string, d *Decimal) {
+	h.add(fmt.Sprintf("%s:form=%d,neg=%v,exp=%d", name, d.Form, d.Negative, d.Exponent))
+	verifFpBig(h, name+".coeff", &d.Coeff)
+}
+
+type verifHasher struct {
+	n     int
+	lines []string
+}
+
+func (h *verifHasher) add(s string) { h.n++; h.lines = append(h.lines, s) }
+
+// VerifSharedState returns a fingerprint (and the number of items it covers)
+// of every package-level value that operations may read: constants, lookup
+// tables, BaseContext, the rounding set and the negative sentinel. Two calls
+// return the same string iff none of that state changed bit-for-bit.
+func VerifSharedState() (fingerprint string, items int) {
+	lines := VerifSharedStateLines()
+	f := fnv.New128a()
+	for _, l := range lines {
+		f.Write([]byte(l))
+		f.Write([]byte{'\n'})
+	}
+	return fmt.Sprintf("%x", f.Sum(nil)), len(lines)
+}
+
+// VerifSharedStateLines returns the individual fingerprint lines, for
+// diagnosing which item changed.
+func VerifSharedStateLines() []string {
+	h := &verifHasher{}
+	verifFpBig(h, "bigOne", bigOne)
+	verifFpBig(h, "bigTwo", bigTwo)
+	verifFpBig(h, "bigFive", bigFive)
+	verifFpBig(h, "bigTen", bigTen)
+	for _, e := range []struct {
+		n string
+		d *Decimal
+	}{
+		{"decimalZero", decimalZero}, {"decimalOneEighth", decimalOneEighth}, {"decimalHalf", decimalHalf},
+		{"decimalOne", decimalOne}, {"decimalTwo", decimalTwo}, {"decimalThree", decimalThree},
+		{"decimalEight", decimalEight}, {"decimalMaxInt64", decimalMaxInt64}, {"decimalMinInt64", decimalMinInt64},
+		{"decimalCbrtC1", decimalCbrtC1}, {"decimalCbrtC2", decimalCbrtC2}, {"decimalCbrtC3", decimalCbrtC3},
+		{"decimalNaN", decimalNaN}, {"decimalInfinity", decimalInfinity},
+	} {
+		verifFpDec(h, e.n, e.d)
+	}
+	for _, e := range []struct {
+		n string
+		c *constWithPrecision
+	}{{"decimalLn10", decimalLn10}, {"decimalInvLn10", decimalInvLn10}} {
+		verifFpDec(h, e.n+".unrounded", &e.c.unrounded)
+		h.add(fmt.Sprintf("%s.len=%d", e.n, len(e.c.vals)))
+		for i := range e.c.vals {
+			verifFpDec(h, fmt.Sprintf("%s.vals[%d]", e.n, i), &e.c.vals[i])
+		}
+	}
+	for i := range pow10LookupTable {
+		verifFpBig(h, fmt.Sprintf("pow10[%d]", i), &pow10LookupTable[i])
+	}
+	for i := range digitsLookupTable {
+		e := &digitsLookupTable[i]
+		h.add(fmt.Sprintf("digits[%d]=%d", i, e.digits))
+		verifFpBig(h, fmt.Sprintf("digits[%d].border", i), &e.border)
+		verifFpBig(h, fmt.Sprintf("digits[%d].nborder", i), &e.nborder)
+	}
+	h.add(fmt.Sprintf("BaseContext=%d,%d,%d,%d,%q", BaseContext.Precision, BaseContext.MaxExponent,
+		BaseContext.MinExponent, BaseContext.Traps, string(BaseContext.Rounding)))
+	var rs []string
+	for r := range roundings {
+		rs = append(rs, string(r))
+	}
+	sort.Strings(rs)
+	h.add(fmt.Sprintf("roundings=%q", rs))
+	h.add(fmt.Sprintf("negSentinel=sign%d,bits%x", negSentinel.Sign(), negSentinel.Bits()))
+	return h.lines
+}
